@@ -1,16 +1,17 @@
 ------------------------------ MODULE MC_Tags ------------------------------
 (* Exports the constant tables of the specification as JSON (one line) and   *)
 (* checks the C05 constant invariants.  Run by scripts/vcheck.py.            *)
-EXTENDS Tags, Layout, Json
+EXTENDS Tags, Layout, Api, Json
 SchemeTable == [s \in Schemes |-> [tag |-> TagOf(s), pre |-> IF s = "Aug" THEN "pk" ELSE "",
                                    distinct |-> (s = "Basic"),
                                    byte |-> SchemeByte(s), json |-> SchemeJson(s)]]
 Export == [tags |-> TagTable, salts |-> SaltTable, schemes |-> SchemeTable, keygen_l |-> KeyGenL,
            merlin |-> [proto |-> MerlinProto, labels |-> MerlinLabels, challenge |-> MerlinChallenge],
            curve |-> [g \in Groups |-> [byte |-> CurveByte(g), json |-> CurveJson(g)]],
-           layout |-> LayoutTable, lens |-> LenTable]
+           layout |-> LayoutTable, lens |-> LenTable, api |-> ApiTable]
 ASSUME Distinct
 ASSUME IetfConform
+ASSUME WellFormed
 ASSUME PrintT(<<"TABLES", ToJson(Export)>>)
 VARIABLE x
 Init == x = 0
